@@ -810,7 +810,7 @@ def refmodel_compare(outs, mism):
         for kind, key, fn, sh in (("ops", "labels_ops", "check_op", 250), ("loops", "labels_loops", "check_loop", 60)):
             cs = o[kind]
             for a in range(0, len(cs), sh):
-                name = f"c13_ref_{kind}_{wi}_{a // sh}"
+                name = f"c13p{os.getpid()}_ref_{kind}_{wi}_{a // sh}"
                 text = REF_HEADER + "Definition cases := " + vlib.cq_list(cs[a:a + sh]) + ".\nEval vm_compute in bad " + fn + " 0 cases.\n"
                 jobs.append((name, text))
                 idx.append((name, kind, o[key][a:a + sh]))
@@ -1021,7 +1021,7 @@ def run(ctx):
             ctx.rng.shuffle(coq_cases)
             sample = coq_cases[:ctx.n(110, 600)]
             ncoq = len(sample)
-            mism += e2e.coq_compare("c13", sample)
+            mism += e2e.coq_compare(f"c13p{os.getpid()}", sample)
         else:
             mism.append("model not built: in-history correspondence not run")
         # ---- (e) reference model against the real objects ----
